@@ -211,6 +211,20 @@ Definition div_cells (a b : list sval) : list sval :=
   map2 (fun p q => VFlt (fdiv (to_flt p) (to_flt q))) a b.
 Definition coerce_cells (dt : dtype) (d : list sval) : list sval := map (coerce dt) d.
 
+Definition scale_cells (dt : dtype) (v : sval) (d : list sval) : list sval :=
+  map (fun c => coerce dt (eval_binop Mul c v)) d.
+Definition shift_left (d : list sval) : list sval :=
+  match d with [] => [] | _ :: r => r ++ [last d dflt] end.
+Definition col_sums (dt : dtype) (n c : Z) (d : list sval) : list sval :=
+  map (fun j => sum_cells dt (column n c d j)) (zrange 0 (Z.to_nat c)).
+(* new cells of column j after  a[:, j] op= (h * v | v) *)
+Definition col_upd (dt : dtype) (n c j : Z) (d : list sval) (op : binop) (h : option (list sval))
+           (v : sval) : list sval :=
+  set_col n c j d
+    (map (fun i => coerce dt (eval_binop op (nthZ d (i * c + j))
+                                (match h with Some hd => eval_binop Mul (nthZ hd i) v | None => v end)))
+         (zrange 0 (Z.to_nat n))).
+
 (* ---------- store ---------- *)
 Definition store := list (var * value).
 Fixpoint get (st : store) (x : var) : value :=
@@ -440,6 +454,45 @@ Fixpoint exec (fuel : nat) (c : stmt) (st : store) {struct fuel} : outcome :=
         match (do ra <- get_arr st a; do v <- eval e st;
                let d := div_cells_sc v (adata ra) in
                Ok (set st x (Ar (match ra with A1 _ _ => A1 DFlt d | A2 _ r c _ => A2 DFlt r c d end)))) with
+        | Ok st' => Normal st' | Er e => Err e end
+    | SArrScale a e =>
+        match (do ra <- get_arr st a; do v <- eval e st;
+               Ok (set st a (Ar (match ra with
+                                 | A1 dt d => A1 dt (scale_cells dt v d)
+                                 | A2 dt r c d => A2 dt r c (scale_cells dt v d) end)))) with
+        | Ok st' => Normal st' | Er e => Err e end
+    | SShiftLeft a =>
+        match (do ra <- get_arr st a;
+               match ra with
+               | A1 dt d => Ok (set st a (Ar (A1 dt (shift_left d))))
+               | A2 _ _ _ _ => Er (Uninit a)
+               end) with
+        | Ok st' => Normal st' | Er e => Err e end
+    | SColSums x a =>
+        match (do ra <- get_arr st a;
+               match ra with
+               | A2 dt n c d => Ok (set st x (Ar (A1 dt (col_sums dt n c d))))
+               | A1 _ _ => Er (Uninit a)
+               end) with
+        | Ok st' => Normal st' | Er e => Err e end
+    | SColUpd s a j op h e =>
+        match (do ra <- get_arr st a; do vj <- eval j st; do v <- eval e st;
+               match ra with
+               | A2 dt n c d =>
+                   do _ <- chk (in_range (to_int vj) c) s;
+                   match h with
+                   | None => Ok (set st a (Ar (A2 dt n c (col_upd dt n c (to_int vj) d op None v))))
+                   | Some hv =>
+                       do rh <- get_arr st hv;
+                       match rh with
+                       | A1 _ hd =>
+                           do _ <- chk (zlen hd =? n) s;
+                           Ok (set st a (Ar (A2 dt n c (col_upd dt n c (to_int vj) d op (Some hd) v))))
+                       | A2 _ _ _ _ => Er (OOB s)
+                       end
+                   end
+               | A1 _ _ => Er (OOB s)
+               end) with
         | Ok st' => Normal st' | Er e => Err e end
     | SCall _ ts fn args =>
         match find_func env fn with
